@@ -7,6 +7,7 @@
 #include <cstdio>
 #include <cstdlib>
 #include <cstring>
+#include <fstream>
 #include <iostream>
 #include <sstream>
 #include <vector>
@@ -83,6 +84,22 @@ int main(int argc, char **argv) {
       out["job"] = j;
       try {
         const std::string name = job.get<std::string>("kernel", "k");
+        // files (re)written by this process right before the build: {path: contents}
+        json pre = job["prewrite"];
+        if (pre.isInitialized() && pre.isObject()) {
+          occa::jsonObject &files = pre.object();
+          for (occa::jsonObject::iterator it = files.begin(); it != files.end(); ++it) {
+            std::ofstream f(it->first.c_str(), std::ios::out | std::ios::trunc);
+            f << (std::string) it->second;
+          }
+        }
+        // a job may bring its own device properties (otherwise the process-wide device is used)
+        occa::device jdev = dev;
+        if (job.has("device")) {
+          json jd = job["device"];
+          jd["mode"] = mode;
+          jdev = occa::device(jd);
+        }
         json props = job["props"];
         if (!props.isInitialized()) props = json(json::object_);
         if (job.has("fnvariant")) {
@@ -98,15 +115,15 @@ int main(int argc, char **argv) {
         }
         occa::kernel k;
         if (job.get<std::string>("kind", "string") == "string") {
-          k = dev.buildKernelFromString(job["source"], name, props);
+          k = jdev.buildKernelFromString(job["source"], name, props);
         } else {
-          k = dev.buildKernel(job["file"], name, props);
+          k = jdev.buildKernel(job["file"], name, props);
         }
         out["hash"] = k.hash().getFullString();
         out["binary"] = k.binaryFilename();
         const int n = job.get("n", 8);
         if (job.get("run", true)) {
-          occa::memory o = dev.malloc<int>(n);
+          occa::memory o = jdev.malloc<int>(n);
           std::vector<int> h(n, 0);
           o.copyFrom(h.data());
           k(n, o);
@@ -125,7 +142,7 @@ int main(int argc, char **argv) {
               k.clearArgs();
               json tuple = tests[t];
               for (int a = 0; a < tuple.size(); ++a) {
-                k.pushArg(makeArg(dev, tuple[a], keep));
+                k.pushArg(makeArg(jdev, tuple[a], keep));
               }
               k.run();
               d = 'A';   // accepted
